@@ -9,9 +9,12 @@ THEOREMS = ['MM.Search.' + n for n in ('evaluated_sub_listing', 'C01_exhaustive_
 TRUSTED_BASE = SEARCH_TRUST + ['legality is stated on index sets of the admitted geos; the index->ID map (geo_index) is compared by the correspondence']
 
 
-def run(out, tier, model_ok=True):
+SUPPORTS_DEEPEN = True
+
+
+def run(out, tier, model_ok=True, deepen=False):
   out.rule = 'oracle: every returned design is checked against the C01 sentence using only the raw eligibility table and the geos in the raw frame; non-trivial = >= 2 admitted geos and at least one design evaluated or returned; distinct by (class vector, parameters, number of evaluated designs)'
-  run_search_prop(out, PROP, se.judge_c01, tier, model_ok)
+  run_search_prop(out, PROP, se.judge_c01, tier, model_ok, deepen=deepen)
 
 
 def replay(out, path, model_ok=True):
